@@ -41,12 +41,17 @@ use trust_hir::{Database, SourceDatabase};
 mod lsp {
     use super::*;
 
+    /// Normal answers take milliseconds; a handler that panicked leaves the server silent.
+    const REQUEST_TIMEOUT_S: u64 = 30;
+
     pub struct Lsp {
         child: Child,
         stdin: Option<ChildStdin>,
         rx: Receiver<Value>,
         next_id: i64,
         pub notes: Vec<Value>,
+        /// a request went unanswered: do not wait for this process again
+        dead: bool,
     }
 
     fn read_message(r: &mut impl BufRead) -> Option<Value> {
@@ -88,7 +93,7 @@ mod lsp {
                     }
                 }
             });
-            let mut l = Lsp { child, stdin: Some(stdin), rx, next_id: 0, notes: Vec::new() };
+            let mut l = Lsp { child, stdin: Some(stdin), rx, next_id: 0, notes: Vec::new(), dead: false };
             let caps = if pull {
                 json!({"workspace": {"diagnostic": {"refreshSupport": true}},
                        "textDocument": {"diagnostic": {}}})
@@ -119,10 +124,16 @@ mod lsp {
             let id = self.next_id;
             self.send(&json!({"jsonrpc": "2.0", "id": id, "method": method, "params": params}))?;
             loop {
-                let m = self
-                    .rx
-                    .recv_timeout(Duration::from_secs(60))
-                    .map_err(|e| format!("no answer to {method}: {e}"))?;
+                if self.dead {
+                    return Err(format!("no answer to {method}: server is dead"));
+                }
+                let m = match self.rx.recv_timeout(Duration::from_secs(REQUEST_TIMEOUT_S)) {
+                    Ok(m) => m,
+                    Err(e) => {
+                        self.dead = true;
+                        return Err(format!("no answer to {method}: {e}"));
+                    }
+                };
                 if m.get("method").is_some() {
                     if let Some(rid) = m.get("id") {
                         // server -> client request: answer null
@@ -142,6 +153,11 @@ mod lsp {
         }
 
         pub fn stop(mut self) {
+            if self.dead {
+                let _ = self.child.kill();
+                let _ = self.child.wait();
+                return;
+            }
             let _ = self.request("shutdown", Value::Null);
             let _ = self.notify("exit", Value::Null);
             // tokio's stdin reader keeps the process alive until the pipe is closed
@@ -1206,7 +1222,15 @@ fn plan_case(seed: u64, n: u64, max_notes: u64) -> (Plan, Rng) {
     (Plan { tags, cat, eol, text, version, pull, burst, fixed: None, notes }, r)
 }
 
+/// Sessions that ended with a dead or silent server; after a few of them the run stops early (the
+/// check has already failed and every further one would cost a timeout).
+static TRANSPORT_ERRORS: std::sync::atomic::AtomicUsize = std::sync::atomic::AtomicUsize::new(0);
+const MAX_TRANSPORT_ERRORS: usize = 3;
+
 fn run_case(bin: &str, seed: u64, n: u64, max_notes: u64) -> CaseOut {
+    if TRANSPORT_ERRORS.load(std::sync::atomic::Ordering::SeqCst) >= MAX_TRANSPORT_ERRORS {
+        return CaseOut { lines: Vec::new(), stats: vec!["cases-skipped-after-transport-errors:1".into()], error: None };
+    }
     let (plan, mut r) = plan_case(seed, n, max_notes);
     let mut lines = vec![format!("case {n}")];
     let mut stats: Vec<String> = plan.tags.iter().map(|t| format!("{t}:1")).collect();
@@ -1216,6 +1240,7 @@ fn run_case(bin: &str, seed: u64, n: u64, max_notes: u64) -> CaseOut {
     let res = session(bin, n, &plan, &mut r, &mut lines, &mut stats);
     let error = res.err();
     if let Some(e) = &error {
+        TRANSPORT_ERRORS.fetch_add(1, std::sync::atomic::Ordering::SeqCst);
         // a dead or silent server is an observable of the implementation
         lines.push(format!("# oracle session FAIL {}", hex(e.as_bytes())));
     }
@@ -1252,9 +1277,18 @@ fn session(
         let mut astral = false;
         let mut lone_cr_seen = gen_buf.has_lone_cr();
 
+        let mut after_undefined = 0;
         for k in 0..plan.notes {
+            // once the editor-side specification is undefined only the model tie is left: two more
+            // notifications (does a rejected change leave the document usable?) and stop
+            if plan.fixed.is_none() && matches!(ed, EdState::Undefined) {
+                after_undefined += 1;
+                if after_undefined > 2 && !plan.burst {
+                    break;
+                }
+            }
             // close / re-open now and then
-            if plan.fixed.is_none() && r.chance(1, 25) {
+            if plan.fixed.is_none() && r.chance(1, 40) {
                 l.notify("textDocument/didClose", json!({"textDocument": {"uri": uri}}))?;
                 lines.push("close".into());
                 ed = match ed {
@@ -1264,7 +1298,7 @@ fn session(
                 server = doc_state(&mut l, &uri)?;
                 lines.push(impl_line(&server, &ed));
                 stats.push("ev-close:1".into());
-                if r.chance(3, 4) {
+                if r.chance(7, 8) {
                     let mut kd: &'static str = "";
                     let text = if r.bool() { gen_buf.text() } else { gen_text(r, plan.cat, plan.eol, &mut kd) };
                     version = if r.bool() { 1 } else { version.wrapping_add(1) };
@@ -1288,7 +1322,7 @@ fn session(
             match &plan.fixed {
                 Some(f) => changes = f[k as usize].clone(),
                 None => {
-                    let nch = if r.chance(1, 150) { 0 } else if r.chance(7, 10) { 1 } else { 2 + r.below(3) };
+                    let nch = if r.chance(1, 300) { 0 } else if r.chance(7, 10) { 1 } else { 2 + r.below(3) };
                     let mut scratch = gen_buf.clone();
                     for _ in 0..nch {
                         let (c, validity, kind) = gen_change(r, &scratch, plan.cat, plan.eol, !plan.burst);
